@@ -44,7 +44,19 @@ func newRun(cfg wh.Config, seed int64) *run {
 	rand.Seed(seed) // masks are taken from math/rand's global source
 	rec := tx.NewRec()
 	w := wh.New(cfg, rec)
-	return &run{cfg: cfg, seed: seed, rec: rec, ex: wh.NewExec(w, rec), ck: wh.NewChecker(cfg)}
+	ck := wh.NewChecker(cfg)
+	ck.SkipKnown = hx.Known(wh.SigFlushNoopAfterReadFromError)
+	return &run{cfg: cfg, seed: seed, rec: rec, ex: wh.NewExec(w, rec), ck: ck}
+}
+
+// known reports (and counts) a case that matches the listed known finding; the
+// history cannot be continued behind it.
+func known(err error) bool {
+	if err == wh.ErrKnownFinding {
+		hx.Exclude(wh.SigFlushNoopAfterReadFromError)
+		return true
+	}
+	return false
 }
 
 func (r *run) do(a wh.Action) error {
@@ -95,6 +107,7 @@ func (r *run) note() {
 	mark("saw/write-through", c.Throughs)
 	mark("saw/write-through-refused", c.Refused)
 	mark("saw/grow-with-buffered-bytes", c.GrowBuffered)
+	mark("saw/readfrom-source-error-or-stall", c.ReadFromErrs)
 	mark("open/zero-bytes-dirty", c.OpenEmpty)
 	mark("open/zero-bytes-dirty/nothing-sent", c.OpenNothing)
 	if c.NonTrivial() {
@@ -112,13 +125,21 @@ func TestStateMachine(t *testing.T) {
 		r := newRun(cfg, rapid.Int64Range(1, 1<<40).Draw(t, "seed"))
 		hx.Eval()
 		var bad error
+		dead := false
 		step := func(t *rapid.T, a wh.Action) {
+			if dead {
+				return
+			}
 			if err := r.do(a); err != nil {
+				if known(err) {
+					dead = true
+					return
+				}
 				bad = err
 				t.Fatalf("%v\ncase: %s", err, hx.JSON(r.desc()))
 			}
 		}
-		o := wh.Opts{}
+		o := wh.Opts{SrcErr: true} // sources may also end with a non-EOF error or stall (io.ErrNoProgress)
 		acts := map[string]func(*rapid.T){
 			"write":    func(t *rapid.T) { step(t, wh.DrawWrite(t, r.ex.View(), r.ex.Pos, o)) },
 			"write2":   func(t *rapid.T) { step(t, wh.DrawWrite(t, r.ex.View(), r.ex.Pos, o)) },
@@ -144,6 +165,10 @@ func TestStateMachine(t *testing.T) {
 		}
 		t.Repeat(acts)
 		step(t, wh.Action{Kind: wh.KFlush})
+		if dead {
+			hx.Class("excluded/known-finding")
+			return
+		}
 		if err := r.whole(); err != nil {
 			t.Fatalf("%v\ncase: %s", err, hx.JSON(r.desc()))
 		}
@@ -205,11 +230,11 @@ func TestExhaustiveSmallDepth(t *testing.T) {
 					if err == nil {
 						err = r.whole()
 					}
-					if err != nil {
+					if err != nil && !known(err) {
 						hx.Failf(t, r.desc(), "%v", err)
 						return
 					}
-					if r.ck.NonTrivial() && d <= 2 {
+					if err == nil && r.ck.NonTrivial() && d <= 2 {
 						hx.NonTrivial(hx.Hash("exh", cfg.N, cfg.Client, cfg.NoFlush, cfg.Ext, strings.Join(r.shape, " ")), func() interface{} {
 							return map[string]interface{}{"cfg": cfg, "steps": wh.Describe(r.ex.Log), "exhaustive": true}
 						})
@@ -261,6 +286,16 @@ func TestThresholdSweep(t *testing.T) {
 		{{Kind: wh.KWrite, Rel: "1"}, {Kind: wh.KGrow, Rel: "a+1"}, {Kind: wh.KWrite, Rel: "a"}},
 		{{Kind: wh.KWrite, Rel: "a"}, {Kind: wh.KGrow, Rel: "1"}, {Kind: wh.KWrite, Rel: "a"}, {Kind: wh.KFragment}, {Kind: wh.KWrite, Rel: "a"}},
 		{{Kind: wh.KThrough, Rel: "s+1"}, {Kind: wh.KWrite, Rel: "a"}},
+		// sources that fail with a non-EOF error / stall after k bytes
+		{{Kind: wh.KReadFrom, Rel: "0", Src: 2}},
+		{{Kind: wh.KReadFrom, Rel: "1", Src: 2}},
+		{{Kind: wh.KReadFrom, Rel: "a-1", Src: 2}},
+		{{Kind: wh.KReadFrom, Rel: "a", Src: 2}},
+		{{Kind: wh.KReadFrom, Rel: "2s+3", Src: 2}},
+		{{Kind: wh.KReadFrom, Rel: "a-1", Src: 3}},
+		{{Kind: wh.KReadFrom, Rel: "a", Src: 3}},
+		{{Kind: wh.KReadFrom, Rel: "1", Src: 2}, {Kind: wh.KFlush}, {Kind: wh.KWrite, Rel: "1"}},
+		{{Kind: wh.KWrite, Rel: "1"}, {Kind: wh.KReadFrom, Rel: "a", Src: 2}},
 	}
 	n := 0
 	for i, raw := range raws {
@@ -288,7 +323,7 @@ func TestThresholdSweep(t *testing.T) {
 					if err == nil {
 						err = r.whole()
 					}
-					if err != nil {
+					if err != nil && !known(err) {
 						hx.Failf(t, r.desc(), "%v", err)
 						return
 					}
@@ -297,7 +332,7 @@ func TestThresholdSweep(t *testing.T) {
 		}
 	}
 	hx.EvalN(n)
-	hx.Part("threshold sweep: raw 3..20, 120..140, 65530..65556 x side x flush mode x 10 boundary scripts", int64(n), true)
+	hx.Part("threshold sweep: raw 3..20, 120..140, 65530..65556 x side x flush mode x 19 boundary scripts", int64(n), true)
 }
 
 // TestWriteMessage: WriteMessage and its six variants send exactly one final
@@ -373,4 +408,35 @@ func TestWriteMessage(t *testing.T) {
 			})
 		}
 	})
+}
+
+// TestKnownFindings holds the dedicated probe of the listed finding.
+func TestKnownFindings(t *testing.T) {
+	what := "wsutil.Writer: ReadFrom of a source that delivers exactly Size() bytes and then fails with a non-EOF error reports them accepted and sends a non-final frame; the following Flush returns nil and sends nothing, so the message is never finished and the next message is sent as its continuation"
+	rec := tx.NewRec()
+	w := wsutil.NewWriterBufferSize(rec, ws.StateServerSide, ws.OpText, 10) // Size() == 8
+	src := &wh.Source{Data: []byte("12345678"), End: wh.ErrSource}
+	n, rerr := w.ReadFrom(src)
+	ferr := w.Flush()
+	fs1, _, _ := ref.ParseFrames(rec.Bytes())
+	w.Write([]byte("x"))
+	w.Flush()
+	fs, rest, _ := ref.ParseFrames(rec.Bytes())
+	hx.Eval()
+	if w.Size() != 8 || n != 8 || rerr != wh.ErrSource || len(rest) != 0 {
+		hx.Failf(t, nil, "probe set-up: Size()=%d ReadFrom=(%d, %v), %d stray bytes", w.Size(), n, rerr, len(rest))
+		return
+	}
+	// expected: "12345678" leaves as one message ending in a FIN frame before "x" starts a new text message
+	present := ferr == nil && (len(fs1) == 0 || !fs1[len(fs1)-1].H.Fin)
+	if !present {
+		// the defect is gone: then the two messages must be well formed
+		ok := len(fs) >= 2 && fs[len(fs)-1].H.Op == ref.OpText && fs[len(fs)-1].H.Fin && string(fs[len(fs)-1].Payload) == "x"
+		if ferr == nil && !ok {
+			present = true
+		}
+	}
+	hx.Probe(t, wh.SigFlushNoopAfterReadFromError, what, present, map[string]interface{}{
+		"writer": "NewWriterBufferSize(server, text, 10)", "source": "8 bytes, then a non-EOF error", "readfrom_n": n, "flush_err": fmt.Sprint(ferr),
+		"frames_after_flush": ref.Describe(fs1), "frames_after_next_message": ref.Describe(fs)})
 }
